@@ -15,3 +15,15 @@ Lemma gen_args_unchanged fuel h o v h' r :
   (forall n x t, read n h x = Some t -> read n h' x = Some t) /\
   fresh_ref h h' r.
 Proof. rewrite gen_merge_eq. apply merge_heap_args_unchanged. Qed.
+
+From Asphalt Require Import Config.MergeSim.
+
+(* the simulation theorem, transported: on EVERY heap the regenerated definition returns a new
+   object that reads back as the pure merge of what its arguments read back as, and leaves both
+   arguments reading as before *)
+Lemma gen_computes_merge : forall n h vo vv to tv,
+  read (S n) h vo = Some to -> read (S n) h vv = Some tv ->
+  exists h' r, merge_config_gen (S (S n)) h vo vv = Some (h', r) /\
+    read (S n) h' r = Some (TDict (merge_dict (as_dict to) (as_dict tv))) /\
+    read (S n) h' vo = Some to /\ read (S n) h' vv = Some tv /\ fresh_ref h h' r.
+Proof. intros. rewrite gen_merge_eq. now apply merge_heap_computes_merge. Qed.
